@@ -149,7 +149,9 @@ class QueueSystem:
     bs = self.q.init(self.jax.random.PRNGKey(0))
     refs = [Ref(self.cap, self.batch, 'fifo' if self.mode == 'uniform'
                 else self.mode) for _ in range(self.shards)]
-    return (bs, 0, refs, 0)
+    # record ids start at 1: an all-zero storage row (never inserted) can then
+    # never be mistaken for a held record
+    return (bs, 0, refs, 1)
 
   def enabled(self, state):
     ops = [('insert', k) for k in range(1, self.cap + 2)]
@@ -417,8 +419,11 @@ def run_tla(task, res):
       if not problems:
         held, ip, sp = sys_._held_impl(nxt[0])
         got_out = list(outcome[1]) if outcome[0] == 'sample' else []
-        if held[0] != tgt['held'] or sp[0] != tgt['cursor'] or \
-            got_out != tgt['out']:
+        # the model numbers records from 0, the harness from 1
+        want_held = [x + 1 for x in tgt['held']]
+        want_out = [x + 1 for x in tgt['out']]
+        if held[0] != want_held or sp[0] != tgt['cursor'] or \
+            got_out != want_out:
           problems = [('tla-conformance',
                        'edge %s: implementation reached held=%s cursor=%d '
                        'out=%s, TLC state held=%s cursor=%d out=%s' % (
